@@ -833,8 +833,8 @@ let run_inflights = function
    | c :: ops ->
      run_ops (N.eqb mode (Npos XH)) (new0 (N.to_nat c)) (decode_ops ops))
 
-type entry = { e_term : n; e_index : n; e_type : n; e_data : n list;
-               e_context : n list; e_sync_log : bool }
+type entry = { e_type : n; e_term : n; e_index : n; e_data : n list;
+               e_context : n list }
 
 (** val varint_len : n -> n **)
 
@@ -913,11 +913,9 @@ let entry_size e =
   N.add
     (N.add
       (N.add
-        (N.add
-          (N.add (varint_field_size e.e_type) (varint_field_size e.e_term))
-          (varint_field_size e.e_index)) (bytes_field_size e.e_data))
-      (bytes_field_size e.e_context))
-    (if e.e_sync_log then Npos (XO XH) else N0)
+        (N.add (varint_field_size e.e_type) (varint_field_size e.e_term))
+        (varint_field_size e.e_index)) (bytes_field_size e.e_data))
+    (bytes_field_size e.e_context)
 
 (** val nO_LIMIT : n **)
 
@@ -1499,9 +1497,9 @@ let step0 m = function
     (map_sres (fun x -> RSnap x) (snd r))))
 | QHardState -> Ok (m, (SOk (RHard (hard_state_of m))))
 
-(** val take_list : n list -> (n list * n list) option **)
+(** val dec_list : n list -> (n list * n list) option **)
 
-let take_list = function
+let dec_list = function
 | [] -> None
 | n0 :: r ->
   let k = N.to_nat n0 in
@@ -1510,16 +1508,16 @@ let take_list = function
 (** val parse_cs : n list -> (conf_state * n list) option **)
 
 let parse_cs l =
-  match take_list l with
+  match dec_list l with
   | Some p ->
     let (v, l1) = p in
-    (match take_list l1 with
+    (match dec_list l1 with
      | Some p0 ->
        let (le, l2) = p0 in
-       (match take_list l2 with
+       (match dec_list l2 with
         | Some p1 ->
           let (vo, l3) = p1 in
-          (match take_list l3 with
+          (match dec_list l3 with
            | Some p2 ->
              let (ln, l0) = p2 in
              (match l0 with
@@ -1536,10 +1534,10 @@ let parse_cs l =
 (** val parse_vl : n list -> (conf_state * n list) option **)
 
 let parse_vl l =
-  match take_list l with
+  match dec_list l with
   | Some p ->
     let (v, l1) = p in
-    (match take_list l1 with
+    (match dec_list l1 with
      | Some p0 -> let (le, l2) = p0 in Some ((cs_from v le), l2)
      | None -> None)
   | None -> None
@@ -1567,18 +1565,14 @@ let rec parse_entries k l =
                  | fill :: l4 ->
                    (match l4 with
                     | [] -> None
-                    | cl :: l5 ->
-                      (match l5 with
-                       | [] -> None
-                       | sy :: r ->
-                         (match parse_entries k' r with
-                          | Some p ->
-                            let (es, r') = p in
-                            Some (({ e_term = te; e_index = ix; e_type = ty;
-                            e_data = (repeat fill (N.to_nat dl)); e_context =
-                            (repeat fill (N.to_nat cl)); e_sync_log =
-                            (negb (N.eqb sy N0)) } :: es), r')
-                          | None -> None))))))))
+                    | cl :: r ->
+                      (match parse_entries k' r with
+                       | Some p ->
+                         let (es, r') = p in
+                         Some (({ e_type = ty; e_term = te; e_index = ix;
+                         e_data = (repeat fill (N.to_nat dl)); e_context =
+                         (repeat fill (N.to_nat cl)) } :: es), r')
+                       | None -> None)))))))
 
 type cmd =
 | COp of op0
@@ -1789,17 +1783,16 @@ let enc_cs c =
 let sum_bytes l =
   fold_right N.add N0 l
 
-(** val enc_entry : entry -> n list **)
+(** val enc_entry_c : entry -> n list **)
 
-let enc_entry e =
+let enc_entry_c e =
   e.e_type :: (e.e_term :: (e.e_index :: ((N.of_nat (length e.e_data)) :: (
-    (sum_bytes e.e_data) :: ((N.of_nat (length e.e_context)) :: ((enc_bool
-                                                                   e.e_sync_log) :: []))))))
+    (sum_bytes e.e_data) :: ((N.of_nat (length e.e_context)) :: [])))))
 
-(** val enc_entries : entry list -> n list **)
+(** val enc_entries_c : entry list -> n list **)
 
-let enc_entries l =
-  (N.of_nat (length l)) :: (flat_map enc_entry l)
+let enc_entries_c l =
+  (N.of_nat (length l)) :: (flat_map enc_entry_c l)
 
 (** val enc_snap : snapshot -> n list **)
 
@@ -1824,7 +1817,7 @@ let enc_ctx = function
 let enc_ret = function
 | RUnit -> []
 | RNum n0 -> n0 :: []
-| REntries l -> enc_entries l
+| REntries l -> enc_entries_c l
 | RSnap s -> enc_snap s
 | RState (h, c) -> app (enc_hs h) (enc_cs c)
 | RHard h -> enc_hs h
@@ -1858,7 +1851,7 @@ let dump0 m =
              (match s with
               | SOk es ->
                 ((app pre2
-                   (app (enc_entries es)
+                   (app (enc_entries_c es)
                      (m.snap_index :: (m.snap_term :: [])))), true)
               | SErr e ->
                 ((app pre2 ((Npos XH) :: ((serr_code e) :: []))), false))
